@@ -284,6 +284,28 @@ pub fn check_macro_step_errors(t: &mut Tape, prefix: &str) -> (Vec<Violation>, V
         }
     }
     let mut viol = vec![];
+    // the run verdict over these events: failed iff some macro-defined step returned Err
+    {
+        use cucumber::{Writer as _, WriterExt as _, writer::Stats as _};
+        #[derive(Clone, Default)]
+        struct Sink;
+        impl cucumber::Writer<ZW> for Sink {
+            type Cli = cucumber::cli::Empty;
+            async fn handle_event(&mut self, _: cucumber::parser::Result<cucumber::Event<event::Cucumber<ZW>>>, _: &Self::Cli) {}
+        }
+        impl cucumber::writer::Arbitrary<ZW, String> for Sink {
+            async fn write(&mut self, _: String) {}
+        }
+        impl cucumber::writer::NonTransforming for Sink {}
+        let mut sum = Sink.summarized();
+        for e in &events {
+            block_on(sum.handle_event(e.clone(), &cucumber::cli::Empty));
+        }
+        let planned = plan.iter().any(|p| p.iter().any(|(_, errs)| *errs));
+        if sum.execution_has_failed() != planned {
+            viol.push(vio("verdict", format!("macro-defined steps returning Err: plan {planned} (some step returns Err), execution_has_failed() = {}; failed_steps() = {}", sum.execution_has_failed(), sum.failed_steps())));
+        }
+    }
     if run_finished != 1 || !matches!(events.last(), Some(Ok(ev)) if matches!(ev.value, event::Cucumber::Finished)) {
         viol.push(vio("run-finished", format!("{run_finished} run-Finished events, last event is Finished: {}", matches!(events.last(), Some(Ok(ev)) if matches!(ev.value, event::Cucumber::Finished)))));
     }
